@@ -63,6 +63,10 @@ def st_schedule_case(draw: st.DrawFn, tier: str) -> dict:
             else:
                 step.append(("nothing",))
         steps.append({"acts": step, "pre": draw(st.booleans()), "idle_after": draw(st.sampled_from([0, 0, 0, 1, 3]))})
+    if small_proto and draw(st.booleans()):
+        # a delivery that fills the caller's whole buffer in the iteration of a cancellation, then more data
+        steps.insert(draw(st.integers(0, len(steps))), {"acts": [("data", 5000), (draw(st.sampled_from(["cancel", "expire"])),)], "pre": draw(st.booleans()), "idle_after": 0})
+        steps.append({"acts": [("data", 300)], "pre": False, "idle_after": draw(st.sampled_from([0, 1]))})
     total = sum(a[1] for s in steps for a in s["acts"] if a[0] == "data") + draw(st.integers(0, 20))
     return {
         "layer_kind": kind,
